@@ -220,6 +220,24 @@ def _check_path(ck, fx, variant, keep, key, items, loops, p, side_conditions):
         if it.kind == "entry":
             k = const_kind(it.eff["args"][1])
             ck.ob("R2.cpkind", "%s|entry" % key, k == "Method", it.at, "entry set to a %s constant" % k)
+    # ---- local indices come from the environment of the frame being compiled (index < frame size needs
+    #      R2.frame's count AND that the slot number was issued by that same environment)
+    frame_kind = "Local" if "frame=Local" in key else ("Top" if ("frame=Top" in key or "frame≠Local" in key) else None)
+    own_env = ("app", "proj", (("var", "current_frame"), lit("Local"), lit("0"))) if frame_kind == "Local" else ("var", "global_environment")
+    if frame_kind and variant not in ("Function", "Object", "Top"):
+        env_ops = {}
+        for it in all_items(items):
+            if it.kind in ("env_lookup_or_bind", "env_bind_fresh") and it.eff.get("res") is not None:
+                env_ops[it.eff["res"]] = it.eff["args"][0]
+        for it in all_items(items):
+            if it.kind == "emit" and it.op[0] == "ctor" and it.op[2] in ("GetLocal", "SetLocal") and it.buf == active:
+                idx = dict(it.op[3]).get("index")
+                src = [env for res, env in env_ops.items() if _mentions(idx, res)]
+                ok = len(src) == 1 and src[0] == own_env
+                ck.ob("R2.frame", "%s|%s index issued by the frame's own environment" % (key, it.op[2]), ok, it.at,
+                      "slot number comes from %s; the frame being compiled is described by %s%s" % (
+                          [fmt_term(e) for e in src] or "no environment operation", fmt_term(own_env),
+                          "" if ok else " — the index can exceed (or alias a slot of) the method's frame"))
     # ---- labels: provenance from a group created on this path
     lab_items = [it for it in all_items(items) if it.kind == "emit" and it.op[0] == "ctor" and it.op[2] in ("Label", "Jump", "Branch")]
     if lab_items:
@@ -241,6 +259,14 @@ def _check_path(ck, fx, variant, keep, key, items, loops, p, side_conditions):
                 fresh, why = False, "the group counter %s is not advanced on this path: the next construct reuses the same label names" % fmt_term(g)
         ck.ob("R2.labels", key, fresh and len(groups) == 1, lab_items[0].at,
               why or "labels %s belong to one group created in this invocation; counter advanced" % sorted({_prefix_of(label_of(i.op)) for i in lab_items}))
+
+
+def _mentions(t, sub):
+    if t == sub:
+        return True
+    if isinstance(t, tuple):
+        return any(_mentions(x, sub) for x in t if isinstance(x, tuple))
+    return False
 
 
 def _pos_lit(args):
